@@ -5,6 +5,10 @@ TECH = "contract-based deductive verification: pyvc VC generation from the real 
 TRUST = ("home-made VC generator (Python subset semantics of DESIGN section 2), assumed external contracts listed in the evidence "
          "file's trusted_base, solver soundness; see evidence.assumptions")
 CLAIMED = {
+    "C03": ("proof", "filter_citations' postconditions -- nothing invented (every result is an input object), pairwise distinct spans, results ordered by span, "
+            "every non-reference citation kept (unless a later element has the identical span) -- are discharged for all citation lists via a loop invariant "
+            "with ghost index maps over the de-duplicated, sorted list; overlapping_citations equals its interval-intersection specification. "
+            "Disjointness of spans and idempotence are bounded (stand-in) only.", "6/C03"),
     "C12": ("proof", "Tokenizer.tokenize's loop invariant (the emitted tokens are a prefix partition of the text at cumulative offsets; the index list names exactly "
             "the special tokens, in increasing order) and postcondition PART are discharged for all texts and all candidate-token lists satisfying CAND, "
             "including the nominative-reporter pop branch; no bound on text or token count.", "6/C12"),
